@@ -1361,26 +1361,9 @@ def run_c06_glued_list_removals(ctx: common.Ctx):
     """Directed: items of a repeated field written right against the NEXT item (legal where the lexer needs no blank:
     `"s"2`, `^l#b`, `USD,EUR;c`). Every item is removed on its own (pop through the raw list) from a fresh parse, and
     all of them front to back / back to front; after every removal the printed text must re-parse to the model.
-    One shape is the recorded finding C06:list-item-removed-next-to-glued-item: the item removed from a list whose
-    separators are blanks was glued to its right neighbour, _del_tokens takes the blanks in front of it, and the two
-    neighbours that the blanks kept apart now lex as ONE token (`1 "s"2` -> `12`). Anything else is reported."""
-    def shape_is_finding(text, before, after, hist_last):
-        # one deleted span = blanks + item, the item touched the next character, both new neighbours are not blank
-        if len(after) >= len(before):
-            return False
-        i = 0
-        while i < len(after) and before[i] == after[i]:
-            i += 1
-        j = 0
-        while j < len(after) - i and before[len(before) - 1 - j] == after[len(after) - 1 - j]:
-            j += 1
-        if i + j != len(after) or i == 0 or j == 0:
-            return False
-        d = before[i:len(before) - j]
-        a, b = before[i - 1], before[len(before) - j]
-        return bool(d) and d[0] in ' \t' and not d[-1].isspace() and not a.isspace() and not b.isspace() \
-            and a not in ',;' and b not in ',;'
-
+    The former finding C06:list-item-removed-next-to-glued-item (`1 "s"2`, pop(1) printed `12`) is repaired
+    (_del_tokens keeps the blanks in front of the removed item when the next item is written right against it): any
+    re-parse difference here is a plain C06 failure."""
     def judge(f, text, attr, hist, before):
         out = treewalk.text_of(f)
         w = {'text': text, 'list': attr, 'history': list(hist), 'printed': out}
@@ -1391,9 +1374,7 @@ def run_c06_glued_list_removals(ctx: common.Ctx):
         g = gen_docs.parse_ok(out, True)
         d = None if g is None else diff(treewalk.content(f), treewalk.content(g))
         if g is None or d:
-            known = shape_is_finding(text, before, out, hist[-1])
-            sig = 'C06:list-item-removed-next-to-glued-item' if known else \
-                ('C06:printed-text-rejected' if g is None else classify_c06(d, out, f))
+            sig = 'C06:printed-text-rejected' if g is None else 'C06:glued-list-removal-reparse-differs'
             ctx.monitor_failure(sig, f'after {hist} on {text!r} the printed document {out!r} ' +
                                 ('no longer parses' if g is None else f'differs from the model at {d}'), w)
             return False
